@@ -104,6 +104,30 @@ def task_search(ctx, module):
                 replay=dict(kind='hook', **v), input_class=v['failure']))
     return dict(violations=violations, searches=searches)
 
+def task_gsearch(ctx, arg):
+    """group-law search on the real code (G1 and G2) against the affine chord-and-tangent law"""
+    import search_groups
+    drv = get_driver()
+    t = time.time()
+    stats, viols = search_groups.search(drv, ctx.seed, ctx.tier)
+    PROP = {'add': ['C04', 'C16'], 'sub': ['C04', 'C16'], 'neg': ['C04', 'C16'], 'double': ['C04'], 'add_assign': ['C04'], 'eq': ['C15', 'C16'], 'to_affine': ['C15', 'C10'],
+            'is_zero': ['C15'], 'mul': ['C05', 'C16'], 'affine_new': ['C09']}
+    violations = []
+    seen = set()
+    for v in viols:
+        op = v['fid'].split('::')[-1]
+        if (v['fid'], v['failure']) in seen:
+            continue
+        seen.add((v['fid'], v['failure']))
+        violations.append(dict(obligation='mirvc/' + v['fid'], props=PROP.get(op, ['C04']), summary='%s(%s...) expected %s observed %s' % (
+            v['hook'], ','.join(a[:16] for a in v['args']), str(v['expected'])[:40], str(v['observed'])[:40]),
+            replay=dict(kind='hook', **v), input_class=v['failure']))
+    searches = []
+    for k, n in sorted(stats.items()):
+        op = k.split('::')[-1]
+        searches.append(dict(name='gsearch/' + k, cases=n, seconds=round(time.time() - t, 2), props=PROP.get(op if op != 'add_ref' else 'add', ['C04'])))
+    return dict(violations=violations, searches=searches)
+
 # ---------------------------------------------------------------------------------------------
 def setup():
     """MANIFEST.setup_cmd: build what can be built ahead of time (offline)."""
